@@ -289,7 +289,7 @@ func runC05(rc *RunCtx) {
 	}
 	for i := 0; i < nU; i++ {
 		d := dests[i]
-		if d.label == "ip" || d.label == "mapped" || d.label == "literal-domain" {
+		if d.label == "ip" || d.label == "literal-domain" {
 			if ip := c05literal(d.str); ip != nil && c05class(ip) == "allow" && !fwd[i] {
 				rc.Failf("udp-public-not-forwarded", "datagram %d to ordinary public address %s was not forwarded", i, d.str)
 			}
@@ -300,7 +300,7 @@ func runC05(rc *RunCtx) {
 			continue
 		}
 		d := dests[tc.i]
-		if !(d.label == "ip" || d.label == "mapped" || d.label == "literal-domain") {
+		if !(d.label == "ip" || d.label == "literal-domain") {
 			continue
 		}
 		ip := c05literal(d.str)
